@@ -26,6 +26,31 @@ def run(fx, rep, tier):
     import pC11
     pC11.rule_history(fx, rep, rid="C17-HISTORY")
     rule_movegen(fx, rep)
+    rule_repscan(fx, rep)
+
+
+def rule_repscan(fx, rep):
+    """'... with its history, so that repetitions across the game are visible to the search': the history the position command
+    builds is only as visible as the scan that reads it. The scan's window and key comparison are the C11-REPKEY clauses,
+    re-reported here as that premise (seed C17-5b: an early `false` for halfmove clocks up to 4 hides a repetition that
+    completes exactly four plies after the last irreversible move of the replayed game)."""
+    import core
+    import pC11
+    sub = type(rep)(rep.prop, rep.tier)
+    q = core.QUIET
+    core.QUIET = True
+    try:
+        pC11.rule_repkey(fx, sub)
+    finally:
+        core.QUIET = q
+    for v in sub.violations:
+        rep.violation("C17-REPSCAN", v["key"].replace("C11-REPKEY", "C17-REPSCAN"), v["msg"] + " (repetitions of the replayed game are then not visible to the search)", v["site"])
+    for x in sub.notes:
+        rep.notes.append(x.replace("C11-REPKEY", "C17-REPSCAN"))
+    rep.obligations += sub.obligations
+    rep.discharged += sub.discharged
+    r = sub.rules[-1]
+    rep.rule("C17-REPSCAN", r["instances"], r["floor"], r["status"] == "ok", "the scan over the replayed history (shared with C11-REPKEY)")
 
 
 def rule_movegen(fx, rep):
@@ -417,6 +442,8 @@ P = "src/engine/uci/parser.rs"
 MVR = "src/engine/uci/move.rs"
 SQ = "src/chess/square.rs"
 MUTANTS = [
+    {"name": "repetition scan skipped for clocks up to four (seed C17-5b)", "expect": "C17-REPSCAN/early-return",
+     "edits": [("src/chess/game.rs", "    pub fn is_repeated_position(&self) -> bool {\n", "    pub fn is_repeated_position(&self) -> bool {\n        if self.halfmove_clock <= 4 {\n            return false;\n        }\n")]},
     {"name": "promotion no longer resets the halfmove clock (seed C17-3)", "expect": "C17-FORWARD",
      "edits": [("src/chess/game.rs", "            maybe_captured_piece.is_some() || moved_piece.kind == PieceKind::Pawn;", "            maybe_captured_piece.is_some() || (moved_piece.kind == PieceKind::Pawn && mv.promotion().is_none());")]},
     {"name": "reader maps b to knight", "expect": "C17-LETTERS/promotion",
